@@ -65,7 +65,7 @@ def fresh(cfg):
     return a, f, y0, dtype
 
 
-def apply_op(a, op, dtype):
+def apply_op(a, op, dtype, budget_extra=20000):
     """returns an observation dict for the operation"""
     de, I = _imports()
     kind = op[0]
@@ -74,7 +74,7 @@ def apply_op(a, op, dtype):
         target = float(a.tf) if kind == "int" else float(op[1])
         obs["target"] = target
         dt_eff = abs(float(a.dt))
-        lim = 8 * driver.min_steps(a.t[-1], target, dt_eff if dt_eff > 0 else 1.0) + 20000
+        lim = 8 * driver.min_steps(a.t[-1], target, dt_eff if dt_eff > 0 else 1.0) + budget_extra
         b = driver.Budget(lim)
         try:
             if kind == "int":
